@@ -1,5 +1,3 @@
 package main
 
-func genStyle(ps *pkgs, out string)  {}
-func genApi(ps *pkgs, out string)    {}
 func genLocks(ps *pkgs, out string)  {}
